@@ -211,7 +211,7 @@ def run(ctx):
             qids = [id(l.w_mps_quantizer) for l in layers.values()]
             shared = len(set(qids)) < len(qids)
             rec['shared_weight_quantizer'] = shared
-            key_sfx = ':non-ascending-precision-order' if not ascending else ':shared-weight-quantizer' if shared else ''
+            key_sfx = ':shared-weight-quantizer' if shared else ''      # (non-ascending precision tuples were repaired: no suffix, no known finding)
             info = {k: v for k, v in rec.items() if k != 'layers'}
             info['layers'] = {n: {k: v for k, v in d.items() if k != 'table'} for n, d in rec['layers'].items()}
             oracle(all(d['demoted_channels'] == 0 for d in rec['layers'].values()), 'refine-demotes-channel' + key_sfx, info)
@@ -220,7 +220,7 @@ def run(ctx):
         except Exception as e:
             import traceback
             rec['exception'] = type(e).__name__ + ': ' + str(e)[:300]
-            oracle(False, 'refine-raises-exception' + ('' if ascending else ':non-ascending-precision-order'), {k: v for k, v in rec.items() if k != 'layers'})
+            oracle(False, 'refine-raises-exception', {k: v for k, v in rec.items() if k != 'layers'})
         B.append(rec)
         changed = any(d['counts_before'] != d['counts_after'] for d in rec['layers'].values())
         ctx.case(('B', C, precs, kind, seed), nontrivial=changed, kind='refine:%s:%s' % (kind, 'x'.join(map(str, precs))),
